@@ -58,15 +58,16 @@ type Call struct {
 }
 
 type Scenario struct {
-	ID      int        `json:"id"`
-	Kind    string     `json:"kind"`
-	Procs   []ProcSpec `json:"procs"`
-	Ordered bool       `json:"ordered,omitempty"`
-	Calls   []Call     `json:"calls"`
-	Choices []string   `json:"choices,omitempty"` // recorded schedule (replay)
-	Polite  bool       `json:"polite,omitempty"`  // scheduling that stays out of the known check-then-act windows
-	Note    string     `json:"note,omitempty"`
-	Seed    int64      `json:"seed"`
+	ID        int        `json:"id"`
+	Kind      string     `json:"kind"`
+	Procs     []ProcSpec `json:"procs"`
+	Ordered   bool       `json:"ordered,omitempty"`
+	Calls     []Call     `json:"calls"`
+	Choices   []string   `json:"choices,omitempty"`    // recorded schedule (replay)
+	Polite    bool       `json:"polite,omitempty"`     // scheduling that stays out of the known check-then-act windows
+	ParkState bool       `json:"park_state,omitempty"` // also park at the status-write trace point (inside the state mutex)
+	Note      string     `json:"note,omitempty"`
+	Seed      int64      `json:"seed"`
 }
 
 type Result struct {
@@ -178,10 +179,15 @@ func (r *runState) enabled() []action {
 						hold = true
 					}
 				}
-				if hold && r.sc.Polite {
+				if r.sc.Polite {
+					// polite: a back-off only elapses when no shutdown is in progress (otherwise it is held and
+					// ends when the stop of that process cancels the run context)
+					hold = r.s.ShutdownActive()
+				}
+				if r.sc.Polite && false {
 					hold = false
 				}
-				if hold {
+				if hold && !r.sc.Polite {
 					hold = r.pick2("hold", "elapse") == 0
 				}
 				r.s.SetHold(p.Inst, hold)
@@ -276,15 +282,17 @@ func (r *runState) polite(acts []action) []action {
 	stage := r.s.ThreadStages()
 	// 1. a thread inside a stop execution or inside Run()'s spawn loop runs to the end of it
 	if res := keep(func(p sched.ParkedInfo) bool {
-		return stage[p.Th] == "stop" || stage[p.Th] == "spawnloop" || stage[p.Th] == "shutdown" || p.Label == "ordered_go"
+		return stage[p.Th] == "stop" || stage[p.Th] == "spawnloop"
 	}); len(res) > 0 {
 		return res
 	}
 	// 2. committed instances launch first
 	if res := keep(func(p sched.ParkedInfo) bool {
 		switch p.Label {
-		case "started", "backoff_elapsed", "backoff_wait":
+		case "started", "backoff_elapsed":
 			return true
+		case "backoff_wait":
+			return !r.s.ShutdownActive()
 		case "run_checked", "restart_decision":
 			return r.s.LastArgTrue(p.Th) == (p.Label == "restart_decision")
 		}
@@ -347,6 +355,9 @@ func (r *runState) startCall(id int, c Call) {
 
 func runScenario(sc *Scenario, maxSteps int) *Result {
 	s := sched.New()
+	if sc.ParkState {
+		s.ParkAlso("state")
+	}
 	r := &runState{sc: sc, s: s, spec: map[string]*ProcSpec{}, launchN: map[string]int{}, probeN: map[string]int{},
 		lineN: map[string]int{}, sigged: map[*fakecmd.Cmd]bool{}, rng: rand.New(rand.NewSource(sc.Seed)),
 		replay: append([]string{}, sc.Choices...)}
@@ -519,6 +530,7 @@ func genScenario(rng *rand.Rand, id int, kind string) *Scenario {
 		ps.ExitOnSkipped = rng.Intn(8) == 0
 		ps.BadDir = rng.Intn(14) == 0
 		ps.StartFail = rng.Intn(14) == 0
+		ps.Disabled = kind == "api" && rng.Intn(7) == 0 // only started through the API
 		sc.Procs = append(sc.Procs, ps)
 	}
 	// make probe / ready-line settings consistent with the conditions used on a process
@@ -547,6 +559,7 @@ func genScenario(rng *rand.Rand, id int, kind string) *Scenario {
 	}
 	sc.Ordered = rng.Intn(3) == 0
 	sc.Polite = rng.Intn(100) < politePct
+	sc.ParkState = rng.Intn(3) == 0
 	sc.Calls = []Call{{Op: "run"}}
 	nm := func() string { return sc.Procs[rng.Intn(len(sc.Procs))].Name }
 	switch kind {
@@ -906,7 +919,7 @@ func main() {
 	sb.WriteString("Definition r_windows := Eval vm_compute in window_codes cases.\nPrint r_windows.\n")
 	for _, p := range []string{"C01", "C02", "C03", "C04", "C05", "C08", "C09", "C12"} {
 		fmt.Fprintf(&sb, "Definition r_bad_%s := Eval vm_compute in bad_%s cases.\nPrint r_bad_%s.\n", p, p, p)
-		fmt.Fprintf(&sb, "Definition r_badw_%s := Eval vm_compute in badw_%s cases.\nPrint r_badw_%s.\n", p, p, p)
+		fmt.Fprintf(&sb, "Definition r_badw_%s := Eval vm_compute in badwn_%s cases.\nPrint r_badw_%s.\n", p, p, p)
 	}
 	if err := os.WriteFile(filepath.Join(*out, "cases_SUP.v"), []byte(sb.String()), 0o644); err != nil {
 		panic(err)
